@@ -30,12 +30,16 @@ from typing import Any
 from sim import histsim, kit, project, runner
 
 PROP = "C10"
+FAMILY = {"H": 600, "P": 300, "L": 60, "I": 400}  # finite scenario families (members are independent of VERIF_SEED)
 
 _zygotes: dict[int, subprocess.Popen[str]] = {}
 
 
 def hash_seeds(k: int) -> list[int]:
-    return [0] + [kit.rng_for(PROP, "hashseed", i).randrange(1, 2**32 - 1) for i in range(1, k)]
+    pool = [kit.family_rng(PROP, "hashseed", i).randrange(1, 2**32 - 1) for i in range(1, 12)]
+    if k - 1 >= len(pool):
+        return [0] + pool
+    return [0] + sorted(kit.rng_for(PROP, "hashseed-sample").sample(pool, k - 1))
 
 
 def zygote(hs: int) -> subprocess.Popen[str]:
@@ -175,6 +179,19 @@ def eval_hash(scn: dict[str, Any], tag: str) -> dict[str, Any]:
             if ref is None:
                 ref, ref_rec = r, rec
                 out["nontrivial"] = len(r["stdout"].splitlines()) >= 3 and len(rec) >= 6
+                continue
+            if scn.get("par"):
+                # In a parallel build the order of the per-file blocks (and with it the file that carries a
+                # per-process only_once note) follows the completion order of the workers. The schedule script
+                # only fixes the controller's choices by index; a different hash seed changes the order of
+                # modules inside a worker's batch (set iteration), so the executions are not step-identical.
+                # Parallel builds are therefore compared the way C07 compares them: status, per-file multisets.
+                from checks import c07
+
+                v2 = c07.compare(r, ref, "hash_seed_under_parallel_build")
+                if v2 is not None and v2["kind"] not in c07.SOFT:
+                    out["violation"] = {"kind": "parallel_output_depends_on_hash_seed", "hashseeds": [seeds[0], hs], "diff": v2.get("diff")}
+                    return out
                 continue
             if exact(r) != exact(ref):
                 out["violation"] = {"kind": "output_depends_on_hash_seed", "hashseeds": [seeds[0], hs], "diff": runner.first_difference(r, ref), "same_as_sets": runner.same_observable(r, ref)}
@@ -317,7 +334,7 @@ def eval_inproc(scn: dict[str, Any], tag: str) -> dict[str, Any]:
 
 
 def gen(fam: str, k: int, tier: str) -> dict[str, Any]:
-    rng = kit.rng_for(PROP, fam, k)
+    rng = kit.family_rng(PROP, fam, k)
     K = 4 if tier == "quick" else 12
     cfgs = [c for c in histsim.STORE_CONFIGS if c["store"] == "files"] + [histsim.STORE_CONFIGS[0]]
     if fam == "H":
@@ -406,10 +423,20 @@ def task(item: tuple[str, int, str]) -> dict[str, Any]:
     if fam == "I":
         for pr in r.get("pre_results") or []:
             out["probes"]["pre_build_" + str(pr[0]) + "_" + str(pr[1])] = out["probes"].get("pre_build_" + str(pr[0]) + "_" + str(pr[1]), 0) + 1
-    if k < 1:
+    if k % 50 == 0:
         out["sample"] = {"family": fam, "modules": sorted(scn["project"]["mods"]), "config": scn["config"], "hashseeds": scn.get("hashseeds"), "perms": (scn.get("perms") or [])[:3], "pre": [[p["kind"], p["flags"]] for p in scn.get("pre", [])]}
     if r["violation"] is not None:
-        out["violation"] = {"family": fam, "k": k, "scenario": scn, "violation": r["violation"]}
+        v = r["violation"]
+        if fam == "I" and v["kind"] in ("result_depends_on_earlier_builds", "cache_records_depend_on_earlier_builds") \
+                and scn["project"].get("plugin") is not None and any(p["project"].get("plugin") is not None for p in scn["pre"]):
+            # counterfactual replay: the same history, but the earlier builds do not load a plugin file that
+            # has the same module name as (and other contents than) the plugin of the build under test
+            cf = copy.deepcopy(scn)
+            for p_ in cf["pre"]:
+                p_["project"]["plugin"] = None
+            if EVAL[fam](cf, f"{fam}{k}cf")["violation"] is None:
+                v = dict(v, kind="stale_plugin_module_in_sys_modules")
+        out["violation"] = {"family": fam, "k": k, "scenario": scn, "violation": v}
     return out
 
 
@@ -427,8 +454,8 @@ def run(tier: str) -> int:
     rep.real_components = ["whole mypy build in real interpreters with different hash seeds", "cache writers (both stores, both formats)", "mypy.api.run, dmypy Server in-process (family I)"]
     rep.stub_components = ["typeshed (lib-stub + fixture builtins)", "clock (SimClock, so that mtime fields in records are equal by construction)"]
     rep.assumptions = ["variants of one scenario run at the same absolute directory (cache records embed absolute paths)"]
-    sizes = {"H": 40, "P": 24, "L": 8, "I": 24} if tier == "quick" else {"H": 1500, "P": 600, "L": 100, "I": 800}
-    items = [(f, k, tier) for f, n in sizes.items() for k in range(n)]
+    sizes = {"H": 40, "P": 24, "L": 8, "I": 24} if tier == "quick" else dict(FAMILY)
+    items = [(f, k, tier) for f, n in sizes.items() for k in kit.sample_indices(PROP, f, FAMILY[f], n)]
     known = kit.load_known_findings(PROP)
     results, skipped = kit.run_pool(task, items, budget_s=900 if tier == "quick" else 3 * 3600)
     results.sort(key=lambda r: (r["family"], r["k"]))
